@@ -17,6 +17,7 @@ import (
 	"sort"
 	"strconv"
 	"strings"
+	"syscall"
 	"time"
 
 	"verif/internal/core"
@@ -325,12 +326,13 @@ func runCorpus(vd, repo, id string) []map[string]any {
 		}
 	}
 	results := make([]map[string]any, len(jobs))
-	sem := make(chan struct{}, 6)
+	sem := make(chan struct{}, 10)
 	done := make(chan int)
 	for i, j := range jobs {
 		go func(i int, j job) {
 			sem <- struct{}{}
-			defer func() { <-sem; done <- i }()
+			release := acquireSlot()
+			defer func() { release(); <-sem; done <- i }()
 			res := map[string]any{"variant": j.file, "kind": j.kind, "expected": map[bool]string{true: "fires", false: "silent"}[j.wantFire]}
 			results[i] = res
 			tmp, err := os.MkdirTemp("", "dverif-corpus-")
@@ -386,6 +388,35 @@ func runCorpus(vd, repo, id string) []map[string]any {
 		<-done
 	}
 	return results
+}
+
+// acquireSlot bounds the number of variant analyses running at the same time on the machine, across all dverif
+// processes (thorough checks of several properties may be started side by side; each analysis holds ≈ 0.8 GB):
+// one of twelve lock files under the system temp dir is flock'ed for the duration. Without a usable temp dir
+// the per-process bound alone applies.
+func acquireSlot() func() {
+	dir := filepath.Join(os.TempDir(), "dverif-slots")
+	if err := os.MkdirAll(dir, 0o777); err != nil {
+		return func() {}
+	}
+	for {
+		opened := false
+		for i := 0; i < 12; i++ {
+			f, err := os.OpenFile(filepath.Join(dir, strconv.Itoa(i)), os.O_CREATE|os.O_RDWR, 0o666)
+			if err != nil {
+				continue
+			}
+			opened = true
+			if syscall.Flock(int(f.Fd()), syscall.LOCK_EX|syscall.LOCK_NB) == nil {
+				return func() { syscall.Flock(int(f.Fd()), syscall.LOCK_UN); f.Close() }
+			}
+			f.Close()
+		}
+		if !opened {
+			return func() {}
+		}
+		time.Sleep(50 * time.Millisecond)
+	}
 }
 
 func sampleObls(all []core.Obligation, n int) []any {
